@@ -28,7 +28,7 @@ type vf33Mut struct {
 
 func (m vf33Mut) String() string { return fmt.Sprintf("%s@%d(%d,%d)", m.Kind, m.Msg, m.A, m.B) }
 
-var vf33MutKinds = []string{"flip", "truncate-consistent", "truncate-lying", "hdrlen", "overwrite16", "overwrite8", "insert", "append-fixlen", "retype", "duplicate", "drop", "zero-body", "grow-huge"}
+var vf33MutKinds = []string{"flip", "truncate-consistent", "truncate-lying", "hdrlen", "overwrite16", "overwrite8", "insert", "append-fixlen", "retype", "duplicate", "drop", "zero-body", "grow-huge", "empty-vectors"}
 
 func vf33GenMuts(t *rapid.T, maxMsg int) []vf33Mut {
 	n := rapid.IntRange(1, 3).Draw(t, "nmut")
@@ -106,6 +106,12 @@ func vf33Apply(raw []byte, m vf33Mut) []byte {
 	case "zero-body":
 		out = out[:4]
 		vf33SetHdrLen(out, 0)
+	case "empty-vectors":
+		// a structurally valid message whose vectors are all empty: N zero bytes read as empty length-prefixed lists
+		// (Certificate with an empty certificate_list = 3, CertificateRequest = 5, NewSessionTicket = 6, ...)
+		n := []int{3, 3, 5, 6, 4, 7}[m.B%6]
+		out = append(out[:4:4], make([]byte, n)...)
+		vf33SetHdrLen(out, n)
 	case "grow-huge":
 		// declared sizes up to 2^24-1 with a body that really is large (bounded so that the harness stays cheap)
 		n := []int{70000, 300000, 1 << 20}[m.B%3]
